@@ -526,7 +526,8 @@ class NumericLiteral(Expr):
         return self._type
 
     def eval(self):
-        return self.type.py_type(self.value)
+        # (a SINGLE literal is the nearest SINGLE: 0.1 is not 0.1#)
+        return self.type.coerce(self.value)
 
     @classmethod
     def parse(cls, token: str, type_char=None):
